@@ -319,7 +319,8 @@ def pscenario(name, nodes, clients, faults, snap=0, lane=1, **kw):
     minority side they would block for as long as the cut lasts; a command a follower forwarded into the cut is lost for good) and
     count as unknown outcome; a client whose command got no reply backs off for 0.3-0.8 s and turns to the other nodes for 4 s
     (every unknown-outcome write stays concurrent with the rest of the history: their number decides the search time).  lane: scenarios of one lane run one
-    after the other in one harness process, lanes run beside each other (lane 0 = the main sequence)."""
+    after the other in one harness process; the partition lanes run beside each other, after the main sequence (lane 0) and the
+    small repros are through."""
     d = scenario(name, nodes, clients, 3000, faults, snap=snap, proxied=True, readers=1, op_timeout_ms=1500,
                  max_ops=2500, think_ms=min(48, 12 * len(faults)))
     d["_lane"] = lane
@@ -437,23 +438,23 @@ def run_cluster(R, ctx, prop, binary, known_sigs, demo_props):
             for s in scen:
                 lanes.setdefault(s.pop("_lane", 0), []).append(s)
             with concurrent.futures.ThreadPoolExecutor(max_workers=8) as ex:
-                # the scenarios of a lane run one after the other in one harness (timing matters); the lanes (0 = main, 1.. = the
-                # scenarios with proxied links) and the small repros run beside each other, each with its own block of ports
+                # the scenarios of a lane run one after the other in one harness process (timing matters); every harness process that
+                # runs at the same time has its own block of ports
                 def start(lane):
                     ls = lanes[lane]
                     return ex.submit(run_engine, binary, server, os.path.join(wd_l, "main" if lane == 0 else "lane%d" % lane),
                                      R.seed * 1000 + 100 * lane, ls, 60 + sum(s["load_ms"] / 1000.0 + 90 + 25 * len(s["faults"]) for s in ls),
                                      0 if lane == 0 else len(side) + lane)
-                # quick tier: everything at once (one short scenario per lane).  Thorough tier: the long main sequence first, the
-                # partition lanes after it - run beside it they slow its 16-client scenarios down enough (more commands without a
-                # reply, a busier machine for porcupine) to leave linearizability searches unfinished.
-                lane_f = [start(lane) for lane in sorted(lanes) if quick or lane == 0]
+                # the main sequence and the small repros first, exactly as before the partition lanes existed; the partition lanes
+                # (beside each other) after them: run beside the main sequence they slow its 16-client scenarios down enough (more
+                # commands without a reply, a busier machine for porcupine) to leave linearizability searches unfinished, and the
+                # repros with fixed waits (a removed member must be gone 3 s later) start to miss their deadlines.
+                lane_f = [start(0)] if 0 in lanes else []
                 for i, d in enumerate(side):
                     jobs.append((d, ex.submit(run_engine, binary, server, os.path.join(wd_l, "side%d" % i), R.seed * 1000 + 500 + i, [d], 180, i + 1)))
                 main = [r for f in lane_f for r in f.result()]
                 side_reports = [(d, f.result()[0]) for d, f in jobs]
-                if not quick:
-                    main += [r for f in [start(lane) for lane in sorted(lanes) if lane != 0] for r in f.result()]
+                main += [r for f in [start(lane) for lane in sorted(lanes) if lane != 0] for r in f.result()]
             R.extra["cluster_wall_s"] = round(time.time() - t0, 1)
         finally:
             leftover = reap(wd_l)
